@@ -274,6 +274,31 @@ fn c03_ranges(c: &WigCase, bytes: &[u8], out: &mut Outcome) {
                     cmp_values("cached", ch, s, e, v, &tags, out);
                 }
             }
+            // ranges reaching beyond the chromosome end (bases there hold nothing) and a query on a
+            // chromosome the file does not have (an error), after which the same readers must
+            // still answer correctly
+            let l = ch.len;
+            for s in [0, l.saturating_sub(1), l, l + 2] {
+                for e in [l + 1, l + 5, u32::MAX] {
+                    out.count("range_queries_beyond_the_chromosome_end", 3);
+                    let g = plain.get_interval(&ch.name, s, e).map_err(|e| format!("{}", e)).and_then(collect_wig);
+                    cmp_answer("plain", ch, s, e, g, &tags, out);
+                    let g = cached.get_interval(&ch.name, s, e).map_err(|e| format!("{}", e)).and_then(collect_wig);
+                    cmp_answer("cached", ch, s, e, g, &tags, out);
+                    let g = open().and_then(|r| r.get_interval_move(&ch.name, s, e).map_err(|e| format!("{}", e))).and_then(collect_wig);
+                    cmp_answer("move", ch, s, e, g, &tags, out);
+                }
+            }
+            for (what, rd_err) in [("plain", plain.get_interval("no_such_chromosome", 0, 5).is_err()), ("cached", cached.get_interval("no_such_chromosome", 0, 5).is_err())] {
+                out.count("queries_on_an_absent_chromosome", 1);
+                if !rd_err {
+                    out.fail("absent_chromosome_query_answered", &tags, format!("{} reader answered a query on a chromosome the file does not have", what));
+                }
+            }
+            let g = plain.get_interval(&ch.name, 0, l).map_err(|e| format!("{}", e)).and_then(collect_wig);
+            cmp_answer("plain after a refused query", ch, 0, l, g, &tags, out);
+            let g = cached.get_interval(&ch.name, 0, l).map_err(|e| format!("{}", e)).and_then(collect_wig);
+            cmp_answer("cached after a refused query", ch, 0, l, g, &tags, out);
         }
     });
     if let Err(p) = r {
@@ -782,6 +807,29 @@ fn c04_ranges(c: &BedCase, bytes: &[u8], out: &mut Outcome) {
                     cmp_bed_answer("move", ch, s, e, g, &tags, out);
                 }
             }
+            // ranges reaching beyond the chromosome end, a refused query, then the same readers again
+            let l = ch.len;
+            for s in [0, l.saturating_sub(1), l, l + 2] {
+                for e in [l + 1, l + 5, u32::MAX] {
+                    out.count("range_queries_beyond_the_chromosome_end", 3);
+                    let g = plain.get_interval(&ch.name, s, e).map_err(|e| format!("{}", e)).and_then(collect_bed);
+                    cmp_bed_answer("plain", ch, s, e, g, &tags, out);
+                    let g = cached.get_interval(&ch.name, s, e).map_err(|e| format!("{}", e)).and_then(collect_bed);
+                    cmp_bed_answer("cached", ch, s, e, g, &tags, out);
+                    let g = open().and_then(|r| r.get_interval_move(&ch.name, s, e).map_err(|e| format!("{}", e))).and_then(collect_bed);
+                    cmp_bed_answer("move", ch, s, e, g, &tags, out);
+                }
+            }
+            for (what, rd_err) in [("plain", plain.get_interval("no_such_chromosome", 0, 5).is_err()), ("cached", cached.get_interval("no_such_chromosome", 0, 5).is_err())] {
+                out.count("queries_on_an_absent_chromosome", 1);
+                if !rd_err {
+                    out.fail("absent_chromosome_query_answered", &tags, format!("{} reader answered a query on a chromosome the file does not have", what));
+                }
+            }
+            let g = plain.get_interval(&ch.name, 0, l).map_err(|e| format!("{}", e)).and_then(collect_bed);
+            cmp_bed_answer("plain after a refused query", ch, 0, l, g, &tags, out);
+            let g = cached.get_interval(&ch.name, 0, l).map_err(|e| format!("{}", e)).and_then(collect_bed);
+            cmp_bed_answer("cached after a refused query", ch, 0, l, g, &tags, out);
         }
     });
     if let Err(p) = r {
